@@ -6,6 +6,7 @@ import Driver.Retry
 import Driver.Mux
 import Driver.Dict
 import Driver.SM
+import Driver.Conn
 /-!
   Driver — reads correspondence lines `domain op args… => impl-output` on stdin and prints,
   per line, tab-separated: index, agree|DISAGREE|BADLINE, Spec verdicts (comma separated or
@@ -92,6 +93,8 @@ def handle (st : St) (idx : Nat) (line : String) : St × String :=
       (match (kv rest "b").bind fromHex with
        | some b => (st, emit idx impl (judgeRetry ((kvNat rest "r").getD 0) (parseOutcomes ((kv rest "outs").getD "-")) b implToks))
        | none => bad)
+    | "conn" :: "serve" :: rest =>
+      (st, emit idx impl (judgeConn dict ((kvNat rest "n").getD 1) ((kv rest "ev").getD "") implToks))
     | "conn" :: "cwrite" :: _ => (st, emit idx impl (judgeCwrite implToks))
     | "stream" :: "read" :: rest =>
       (match fromHex (rest.getLast?.getD "") with
